@@ -165,6 +165,44 @@ example : chain false "l[1].x...l[0]".toList = ⟨["l[0]".toList], none⟩ := by
 example : chain false "a.b..".toList = ⟨["a".toList], none⟩ := by decide +kernel
 example : chain false "a..".toList = ⟨[], some .key⟩ := by decide +kernel
 
+/-! ## 1b. index expressions: the first segment is split off where its brackets balance -/
+
+/-- **`_resolve` splits an indexed first segment off bracket-balanced**, whatever dots its index
+expression contains (the documented `d['a[a[0].b-1].b']`): the key is the piece `p0` (which contains
+`[`), the dot-free pieces `ps` and then `tail`, all joined by single dots; the text assembled so far is
+unbalanced before each of the pieces and balanced after the last.  Then `mine` is exactly that
+balanced text and `rest` is `tail`. -/
+theorem first_segment_bracket_balanced (fixed : Bool) (p0 : Name) (ps : List Name) (tail : Name)
+    (h0 : p0 ≠ []) (h0d : '.' ∉ p0) (h0b : '[' ∈ p0) (hp : ∀ p ∈ ps, '.' ∉ p)
+    (hu : ∀ i, i < ps.length → balanced (accAfter p0 (ps.take i)) = false)
+    (hb : balanced (accAfter p0 ps) = true)
+    (hdd : dotdotStep (p0 ++ '.' :: rjoin ps tail) = none) :
+    resolve fixed (p0 ++ '.' :: rjoin ps tail) = .ok (accAfter p0 ps, some tail) :=
+  resolve_bracketed fixed p0 ps tail h0 h0d h0b hp hu hb hdd
+
+def tIdx : Tree := .node [("a".toList, .list [.node [("b".toList, .leaf 1), ("n".toList, .leaf 2)],
+    .node [("b".toList, .leaf 11)], .node [("b".toList, .leaf 22)]]),
+  ("sel".toList, .node [("idx".toList, .leaf 1)])]
+
+/- non-vacuity: the documented key is an instance (`p0 = a[a[0]`, `ps = [b-1]]`, `tail = b`), and the
+index expressions evaluate against the peer values -/
+example : rjoin ["b-1]".toList] "b".toList = "b-1].b".toList ∧
+    accAfter "a[a[0]".toList ["b-1]".toList] = "a[a[0].b-1]".toList ∧
+    balanced "a[a[0]".toList = false ∧ balanced "a[a[0].b-1]".toList = true ∧
+    dotdotStep "a[a[0].b-1].b".toList = none := by decide +kernel
+example : chain false "a[a[0].b-1].b".toList = ⟨["a[a[0].b-1]".toList, "b".toList], none⟩ := by decide +kernel
+example : getT liveCfg tIdx "a[a[0].b-1].b".toList = .ok (.leaf 1) ∧
+    getT liveCfg tIdx "a[a[sel.idx-1].n].b".toList = .ok (.leaf 22) ∧
+    getT liveCfg tIdx "sel.idx...a[a[0].b].b".toList = .ok (.leaf 11) ∧
+    containsT liveCfg tIdx "a[a[0].n].b".toList = .ok true ∧
+    getT liveCfg tIdx "a[a[0].zz].b".toList = .error .attr ∧
+    getT liveCfg tIdx "a[zz].b".toList = .error .name ∧
+    getT liveCfg tIdx "a[a[0].n+1].b".toList = .error .index ∧
+    getT liveCfg tIdx "a[sel].b".toList = .error .type := by decide +kernel
+example : (setT liveCfg tIdx "a[a[0].n].b".toList (.tree (.leaf 33))).2 = none ∧
+    getT liveCfg (setT liveCfg tIdx "a[a[0].n].b".toList (.tree (.leaf 33))).1 "a[2].b".toList = .ok (.leaf 33) := by
+  decide +kernel
+
 /-! ## 2. lookup after assignment -/
 
 /-- **Looking up the path just assigned returns the stored value** (any tree, any depth, through
@@ -193,9 +231,9 @@ theorem getT_setT_same (cfg : Cfg) (t : Tree) (key : Name) (v : PVal) (tv : Tree
 entry of some level): whatever the assignment does — succeed, or fail half-way after creating
 levels — a lookup of the other path succeeds exactly when it did, with the same value. -/
 theorem get_set_other (cfg : Cfg) {p q : List Name} (h : Indep p q) (kvs : Kvs) (fin : Option Err)
-    (cv : Except Err Tree) (v : Tree) (hp : ∀ m ∈ p, GoodSeg m = true) :
+    (cv : Except Err Tree) (v : Tree) (hp : ∀ m ∈ p, GoodSeg m = true) (hq : ∀ m ∈ q, GoodSeg m = true) :
     getK (setK cfg kvs p fin cv).1 q none = .ok v ↔ getK kvs q none = .ok v :=
-  getK_setK_indep cfg h kvs fin cv v hp
+  getK_setK_indep cfg h kvs fin cv v hp hq
 
 def tSample : Tree := .node [("a".toList, .node [("b".toList, .leaf 1)]),
   ("l".toList, .list [.leaf 1, .node [("x".toList, .leaf 1)]])]
